@@ -310,7 +310,7 @@ func (x *Exec) frameObligations(st *State, env *Env) {
 
 // ---------- events ----------
 
-var observable = map[string]bool{"send": true, "sendmsg": true, "callfn": true, "chansend": true, "close": true, "WriteHeader": true, "ServeHTTP": true, "PostReceipt": true, "timer_reset": true, "GaugeInc": true, "GaugeDec": true}
+var observable = map[string]bool{"send": true, "sendmsg": true, "callfn": true, "chansend": true, "close": true, "WriteHeader": true, "ServeHTTP": true, "PostReceipt": true, "timer_reset": true, "GaugeInc": true, "GaugeDec": true, "wg_wait": true, "scheduler_close": true}
 
 func (x *Exec) isObservable(e Event) bool {
 	if observable[e.Kind] {
